@@ -1751,26 +1751,26 @@ Qed.
 (* ------------------------------------------------------------------------------------------ *)
 (* Why each clause of wf_text is there: concrete schemas (vm_compute)                          *)
 (* ------------------------------------------------------------------------------------------ *)
-Definition ent0 : x_entity := {| xe_annots := []; xe_parents := []; xe_shape := None; xe_tags := None |}.
-Definition ns0 : x_ns := {| xs_annots := []; xs_entities := [(s_of "A", ent0)]; xs_enums := []; xs_commons := []; xs_actions := [] |}.
+Definition t_ent0 : x_entity := {| xe_annots := []; xe_parents := []; xe_shape := None; xe_tags := None |}.
+Definition t_ns0 : x_ns := {| xs_annots := []; xs_entities := [(s_of "A", t_ent0)]; xs_enums := []; xs_commons := []; xs_actions := [] |}.
 Definition with_entity (name : str) (e : x_entity) (n : x_ns) : x_ns := set_entities n (rec_insert name e (xs_entities n)).
 Definition act (ap : option x_applies) : x_action := {| xac_annots := []; xac_parents := []; xac_applies := ap |}.
 
 (* finding F45: an appliesTo without principal (or resource) types prints as a text that the grammar rejects *)
 Definition f45_schema : x_schema :=
-  [([], set_actions ns0 [(s_of "view", act (Some {| xa_principals := []; xa_resources := [s_of "A"]; xa_context := None |}))])].
+  [([], set_actions t_ns0 [(s_of "view", act (Some {| xa_principals := []; xa_resources := [s_of "A"]; xa_context := None |}))])].
 Example f45_rejected : parse_schema (print_schema f45_schema) = SErr /\ wf_text f45_schema = false.
 Proof. split; vm_compute; reflexivity. Qed.
 
 (* a type named `Set` cannot be referenced in a type position (parseType takes it for the set constructor) ... *)
 Definition set_attr_schema : x_schema :=
   [([], with_entity (s_of "B") {| xe_annots := []; xe_parents := []; xe_shape := Some [(s_of "x", (XRef (s_of "Set"), false, []))]; xe_tags := None |}
-                    (with_entity (s_of "Set") ent0 ns0))].
+                    (with_entity (s_of "Set") t_ent0 t_ns0))].
 Example set_type_rejected : parse_schema (print_schema set_attr_schema) = SErr /\ wf_text set_attr_schema = false.
 Proof. split; vm_compute; reflexivity. Qed.
 (* ... but it can be declared and referenced as an entity type (memberOfTypes, principal / resource types): ent_path is weaker than type_path *)
 Definition set_parent_schema : x_schema :=
-  [([], with_entity (s_of "B") {| xe_annots := []; xe_parents := [s_of "Set"]; xe_shape := None; xe_tags := None |} (with_entity (s_of "Set") ent0 ns0))].
+  [([], with_entity (s_of "B") {| xe_annots := []; xe_parents := [s_of "Set"]; xe_shape := None; xe_tags := None |} (with_entity (s_of "Set") t_ent0 t_ns0))].
 Example set_parent_ok : wf_text set_parent_schema = true /\ parse_schema (print_schema set_parent_schema) = SOk set_parent_schema.
 Proof. split; vm_compute; reflexivity. Qed.
 
@@ -1785,45 +1785,45 @@ Proof. split; vm_compute; reflexivity. Qed.
 
 (* a common type may not be named like a reserved type name (parseTypeDecl rejects `type Bool = ...`) *)
 Definition reserved_common_schema : x_schema :=
-  [([], set_commons ns0 [(s_of "Bool", {| xc_annots := []; xc_type := XLong |})])].
+  [([], set_commons t_ns0 [(s_of "Bool", {| xc_annots := []; xc_type := XLong |})])].
 Example reserved_common_rejected : parse_schema (print_schema reserved_common_schema) = SErr /\ wf_text reserved_common_schema = false.
 Proof. split; vm_compute; reflexivity. Qed.
 
 (* declared entity names are written verbatim: they must be identifiers *)
-Definition bad_name_schema : x_schema := [([], with_entity (s_of "a b") ent0 ns0)].
+Definition bad_name_schema : x_schema := [([], with_entity (s_of "a b") t_ent0 t_ns0)].
 Example bad_name_rejected : parse_schema (print_schema bad_name_schema) = SErr /\ wf_text bad_name_schema = false.
 Proof. split; vm_compute; reflexivity. Qed.
 
 (* an entity type and an enumerated type of the same name: the second declaration is rejected *)
-Definition clash_schema : x_schema := [([], set_enums ns0 [(s_of "A", {| xn_annots := []; xn_values := [s_of "v"] |})])].
+Definition clash_schema : x_schema := [([], set_enums t_ns0 [(s_of "A", {| xn_annots := []; xn_values := [s_of "v"] |})])].
 Example clash_rejected : parse_schema (print_schema clash_schema) = SErr /\ wf_text clash_schema = false.
 Proof. split; vm_compute; reflexivity. Qed.
 
 (* the annotations of the bare declarations are not part of the AST: the printer drops them *)
-Definition bare_annot_schema : x_schema := [([], set_annots ns0 [(s_of "doc", s_of "x")])].
-Example bare_annot_dropped : parse_schema (print_schema bare_annot_schema) = SOk [([], ns0)] /\ wf_text bare_annot_schema = false.
+Definition bare_annot_schema : x_schema := [([], set_annots t_ns0 [(s_of "doc", s_of "x")])].
+Example bare_annot_dropped : parse_schema (print_schema bare_annot_schema) = SOk [([], t_ns0)] /\ wf_text bare_annot_schema = false.
 Proof. split; vm_compute; reflexivity. Qed.
 
 (* no component of a namespace name may be __cedar (while a type reference may start with it) *)
-Definition cedar_ns_schema : x_schema := [(s_of "__cedar", ns0)].
+Definition cedar_ns_schema : x_schema := [(s_of "__cedar", t_ns0)].
 Example cedar_ns_rejected : parse_schema (print_schema cedar_ns_schema) = SErr /\ wf_text cedar_ns_schema = false.
 Proof. split; vm_compute; reflexivity. Qed.
 Definition cedar_ref_schema : x_schema :=
-  [([], with_entity (s_of "B") {| xe_annots := []; xe_parents := []; xe_shape := Some [(s_of "x", (XRef (s_of "__cedar::String"), false, []))]; xe_tags := None |} ns0)].
+  [([], with_entity (s_of "B") {| xe_annots := []; xe_parents := []; xe_shape := Some [(s_of "x", (XRef (s_of "__cedar::String"), false, []))]; xe_tags := None |} t_ns0)].
 Example cedar_ref_ok : wf_text cedar_ref_schema = true /\ parse_schema (print_schema cedar_ref_schema) = SOk cedar_ref_schema.
 Proof. split; vm_compute; reflexivity. Qed.
 
 (* an annotation key may be a reserved word; a name that is one is written quoted *)
 Definition reserved_words_schema : x_schema :=
-  [([], set_actions (set_annots ns0 []) [(s_of "in", {| xac_annots := [(s_of "if", []); (s_of "is", s_of "x")]; xac_parents := []; xac_applies := None |})])].
+  [([], set_actions (set_annots t_ns0 []) [(s_of "in", {| xac_annots := [(s_of "if", []); (s_of "is", s_of "x")]; xac_parents := []; xac_applies := None |})])].
 Example reserved_words_ok : wf_text reserved_words_schema = true /\ parse_schema (print_schema reserved_words_schema) = SOk reserved_words_schema.
 Proof. split; vm_compute; reflexivity. Qed.
 
 (* the builtin names come back as type references *)
 Definition builtin_schema : x_schema :=
-  [([], set_commons ns0 [(s_of "T", {| xc_annots := []; xc_type := XSet (XRec [(s_of "a", (XLong, true, [])); (s_of "b", (XExt (s_of "ipaddr"), false, []))]) |})])].
+  [([], set_commons t_ns0 [(s_of "T", {| xc_annots := []; xc_type := XSet (XRec [(s_of "a", (XLong, true, [])); (s_of "b", (XExt (s_of "ipaddr"), false, []))]) |})])].
 Example builtin_normalised : parse_schema (print_schema builtin_schema)
-  = SOk [([], set_commons ns0 [(s_of "T", {| xc_annots := []; xc_type := XSet (XRec [(s_of "a", (XRef (s_of "Long"), true, [])); (s_of "b", (XRef (s_of "ipaddr"), false, []))]) |})])].
+  = SOk [([], set_commons t_ns0 [(s_of "T", {| xc_annots := []; xc_type := XSet (XRec [(s_of "a", (XRef (s_of "Long"), true, [])); (s_of "b", (XRef (s_of "ipaddr"), false, []))]) |})])].
 Proof. vm_compute. reflexivity. Qed.
 
 (* ------------------------------------------------------------------------------------------ *)
